@@ -432,8 +432,15 @@ def build_conversation(rnd, nex=6, fault_p=0.45, cfg=None, chunking=None, faults
                 s.stop()
                 meta["exchanges"].append("stop")
             elif x < 0.86:
-                s.err(rnd.choice([1, 4, 3]))
-                meta["exchanges"].append("err-while-established")
+                # half of the time the failure (interrupted / broken / closed read) comes after part of the refresh
+                # interval has passed: what the client does next depends on the time that is left, not on the whole interval
+                if rnd.random() < 0.5 and s.cfg[0] > 1:
+                    s.wait(rnd.choice([1, s.cfg[0] // 2, s.cfg[0] - 1]))
+                    s.err(3)
+                    meta["exchanges"].append("intr-mid-wait")
+                else:
+                    s.err(rnd.choice([1, 4, 3]))
+                    meta["exchanges"].append("err-while-established")
             elif x < 0.93:
                 # a PDU that is not a Serial Notify and whose payload dribbles in late: the client re-enters its
                 # wait when the refresh deadline may already be over
